@@ -60,7 +60,7 @@ func checkC16(c caseC16) (Outcome, error) {
 		if !got.IsEqualTo(same) || !same.IsEqualTo(got) {
 			return out, fmt.Errorf("%q and %q denote the same time but are not equal", c.S, same.ToString())
 		}
-		for _, d := range []int{-1, 1} {
+		for _, d := range []int{-1, 1, -1440, 1440, -2880, 2880, -720, 720, -1439, 1439} {
 			if o := want.Off + d; o >= -1440 && o < 2880 {
 				other, _ := klogTimeOf(o, want.Is12h)
 				if got.IsEqualTo(other) {
@@ -103,6 +103,12 @@ func checkC16(c caseC16) (Outcome, error) {
 		}
 		if err == nil && r.Duration().InMinutes() != c.B-c.A {
 			return out, fmt.Errorf("range %s lasts %d minutes, want %d", r.ToString(), r.Duration().InMinutes(), c.B-c.A)
+		}
+		if s.IsEqualTo(e) != (c.A == c.B) || e.IsEqualTo(s) != (c.A == c.B) {
+			return out, fmt.Errorf("%s IsEqualTo %s = %v, but the values are %d and %d", s.ToString(), e.ToString(), s.IsEqualTo(e), c.A, c.B)
+		}
+		if e.IsAfterOrEqual(s) != (c.B >= c.A) || s.IsAfterOrEqual(e) != (c.A >= c.B) {
+			return out, fmt.Errorf("%s IsAfterOrEqual %s = %v, but the values are %d and %d", e.ToString(), s.ToString(), e.IsAfterOrEqual(s), c.B, c.A)
 		}
 		out.NonTrivial = (c.A < 0) != (c.B < 0) || (c.A >= 1440) != (c.B >= 1440) || c.A == c.B
 		return out, nil
@@ -221,6 +227,13 @@ func eachC16(shard, shards int, ev *evid.Rec, emit func(caseC16) bool) {
 		for b := -1440 + (a+1440)%stride; b < 2880; b += stride {
 			if !emit(caseC16{Part: "pair", A: a, B: b, F: (a+b)%2 == 0}) {
 				return
+			}
+		}
+		for _, dd := range []int{-2880, -1440, 0, 1440, 2880} {
+			if b := a + dd; b >= -1440 && b < 2880 && stride > 1 {
+				if !emit(caseC16{Part: "pair", A: a, B: b, F: a%2 == 0}) {
+					return
+				}
 			}
 		}
 		for d := -2880 + (a+1440)%stride; d <= 2880; d += stride {
